@@ -33,6 +33,28 @@ def run(seed=20240607, rounds=1):
     return repr(out)
 
 
+def run_ops():
+    """a fixed panel of conversions / substitutions / validations of equal-valued scalars of different types, in a fixed
+    order: whatever a process converted, substituted or validated before must not show in the outcome"""
+    from d42 import schema, substitute, validate
+    from d42.utils import from_native, make_required
+    from . import canon
+    out = []
+    scalars = (0, 1, 2, 7, 300, 0.0, 1.0, 2.0, 7.0, 300.0, -0.0, True, False, "a", "", "1", None, b"")
+    for x in scalars:
+        out.append(canon.canon(from_native(x)))
+    for x in scalars:
+        for target, wrap in ((schema.any, lambda v: v), (schema.list, lambda v: [v]), (schema.dict, lambda v: {"k": v}),
+                             (schema.list([schema.int, ...]), lambda v: [5, v])):
+            out.append(canon.canon(substitute(target, wrap(x))))
+    d = schema.dict({"a": schema.int, "b": schema.any(schema.float, schema.none)})
+    for v in ({"a": 1, "b": 1.0}, {"a": 1.0, "b": 1}, {"a": True, "b": None}, {"a": 0, "b": 0.0}, {"a": 0}):
+        out.append([type(e).__name__ for e in validate(d, v).get_errors()])
+    out.append(canon.canon(make_required(schema.dict({"x": schema.int}) + schema.dict({"y": schema.str}))))
+    out.append(repr(schema.list(schema.dict({"k": schema.float(1.0).precision(1)}))))
+    return repr(out)
+
+
 # generations that fail inside containers (an exception travelling through the generator must not leave anything behind)
 def failing(kind, depth):
     from d42 import fake, schema
